@@ -49,6 +49,7 @@ type histCall struct {
 	Attrs  []vlib.ExpAttr
 	Thru   bool
 	Panics int // 0: no; 1: one attribute value panics in its String method (the caller recovers); 2: the same inside a group
+	Flip   int // 1: the privacy-path flag is inverted while this call is made; 2: a further path mapping over the source tree is registered meanwhile (sequential histories only; both undone before the probe)
 	Reads  int // > 0: one attribute is an ObjectMarshaller that consumes this many bytes of the encoder it is handed (Next) before writing
 }
 
@@ -129,6 +130,9 @@ func genHistory(t *rapid.T, label string, nLoggers int) []histCall {
 		}
 		if rapid.Bool().Draw(t, "hattrs") {
 			h[i].Attrs = genAttrs(t)
+		}
+		if rapid.IntRange(0, 7).Draw(t, "hflip") == 0 {
+			h[i].Flip = rapid.IntRange(1, 2).Draw(t, "hflipKind")
 		}
 		if rapid.IntRange(0, 9).Draw(t, "hreads") == 0 {
 			h[i].Reads = rapid.SampledFrom([]int{1, 5, 40, 400, 5000}).Draw(t, "hreadsN")
@@ -246,6 +250,19 @@ func property(t *rapid.T, mode string, sink func([]byte)) {
 			do := func(c histCall) {
 				l := hl[c.Logger]
 				attrs := vlib.AttrsOf(c.Attrs)
+				if c.Flip > 0 && goroutines <= 1 {
+					// the same call site as the probe's, resolved under other global settings
+					if c.Flip == 1 {
+						old := slog.GetFlags()
+						slog.SetFlags(old ^ slog.Lprivacypath)
+						defer slog.SetFlags(old)
+					} else {
+						cwd, _ := os.Getwd()
+						up := filepath.Dir(filepath.Dir(cwd))
+						slog.AddKnownPathMapping(up, "~flip")
+						defer slog.RemoveKnownPathMapping(up)
+					}
+				}
 				if c.Reads > 0 {
 					attrs = append(attrs, slog.NewAttr("rd", consumer{c.Reads}))
 				}
@@ -354,6 +371,9 @@ func property(t *rapid.T, mode string, sink func([]byte)) {
 				}
 				if c.Reads > 0 {
 					nt["history-has-a-marshaller-reading-from-the-encoder"] = true
+				}
+				if c.Flip > 0 {
+					nt["history-call-under-other-global-settings"] = true
 				}
 			}
 		}
